@@ -77,6 +77,7 @@ pub fn run(sc: &Value, id: usize, out: Out) {
             let d = rows[0].as_array().unwrap().len();
             let mut m = Array2::<f64>::zeros((n, d));
             for (i, r) in rows.iter().enumerate() { for (j, x) in r.as_array().unwrap().iter().enumerate() { m[[i, j]] = val(x, den); } }
+            let m = crate::tj::layout(m);
             let b = Array1::from_iter(sc["bias"].as_array().unwrap().iter().map(|x| val(x, den)));
             let opt = options_of(&sc["options"]);
             let prec = us(&sc["prec"]);
